@@ -223,6 +223,13 @@ class SimFS(object):
             return getattr(_os, name)
         raise AttributeError("SimFS has no os.%s" % name)
 
+    def revive(self):
+        """A new process starts on the surviving image: every descriptor and user buffer of the dead one is gone."""
+        self.dead = False
+        self.kill_at = None
+        self.fds = {}
+        self.deaths = getattr(self, "deaths", 0) + 1
+
     def snapshot(self):
         """The surviving image: path -> text."""
         return dict((p, ino.text()) for p, ino in self.files.items())
